@@ -1,4 +1,5 @@
 import AggkitModel.Model.Downloader
+import AggkitModel.Generated.SyncFacts
 /-
 C05 — syncers deliver every watched event exactly once, in chain order.
 For every chain, chunk size, start block and EVERY sequence of (tip, finalized) observations — tip jumps of any
@@ -390,6 +391,18 @@ theorem C05_grouping (env : Env) (f t : Nat) : groupLogs (logsIn env f t) [] = e
 
 example : groupLogs (logsIn exEnv0 1 10) [] = [(3, [31, 32]), (4, [41]), (9, [91])] := by decide
 
+
+/-- what the model takes from the source (regenerated from /repo on every run): the retry after a header-hash mismatch
+    fetches the WHOLE range again (`getEventsRetry`), gives up after 5 retries; the grouping loop opens a block exactly
+    under `groupLogs`' condition; the driver retries a failed read of the last-processed marker and starts the downloader
+    at marker + 1 -/
+theorem C05_code_facts :
+    Gen.SyncFacts.mismatchRetryArgs = ["ctx", "fromBlock", "toBlock", "retryCount + 1"] ∧
+    Gen.SyncFacts.maxRetryCountBlockHashMismatch = "5" ∧
+    Gen.SyncFacts.mismatchGiveUpCond = ["retryCount >= MaxRetryCountBlockHashMismatch"] ∧
+    Gen.SyncFacts.groupOpenCond = ["latestBlock == nil || latestBlock.Num < l.BlockNumber"] ∧
+    Gen.SyncFacts.markerReadLoop = ["assign", "if(err != nil):continue", "break"] ∧
+    Gen.SyncFacts.downloadCallArgs = ["cancellableCtx", "lastProcessedBlock + 1", "downloadCh"] := by decide
 
 /-- non-vacuity: a chain with logs in blocks 3, 4 and 9, chunk 2, tip jumping 5 → 12 → 20, finalized lagging;
     the inputs are admissible and the loop hands over 3, 4, 9 and the marker 12 -/
